@@ -259,7 +259,10 @@ def check_binding_h1(code, post):
 
 
 def check_c04(tier, t0):
+    import proggen
     progs = pick(all_progs(), tier, 40)
+    gen, _gr = proggen.generate("C04_gen", 200 if tier == "thorough" else 30, seed() + 4, max_lines=10, max_depth=3, nfuncs=2)
+    progs = progs + [(n, s, "generated") for n, s, _ in gen]
     vecs = [cw.REF, cw.opts(inline_functions=True), cw.opts(use_push_pop_functions=True, tail_call_optimization=True)]
     if tier == "thorough":
         vecs += [cw.opts(inline_functions=True, use_push_pop_functions=True), cw.opts(tail_call_optimization=True)]
@@ -495,6 +498,25 @@ def annotated(r, code, push_pop):
     return equiv.annotate_functions(prog, set(finfo), push_pop, finfo), finfo
 
 
+def all_paths(pid, items):
+    """IC10Abs.tla on the candidate program of every item: all paths, no bound on inputs or ticks.  An abstract alarm is
+    never a verdict by itself (infeasible paths): it is listed in evidence unless the concrete product reports it too."""
+    import absint
+
+    seen, progs, names = {}, [], []
+    for it in items:
+        key = json.dumps(it["case"]["pb"], sort_keys=True)
+        if key in seen:
+            continue
+        seen[key] = True
+        progs.append(absint.annotate_abs(copy.deepcopy(it["case"]["pb"])))
+        names.append(it["name"] + "@" + it["tag"])
+    vs, r = absint.run_abs(pid + "_abs", progs)
+    alarms = {n: sorted(v) for n, v in zip(names, vs) if v}
+    return {"all_paths_programs": len(progs), "all_paths_proved": sum(1 for v in vs if not v), "all_paths_abstract_states": r.distinct,
+            "all_paths_alarms_listed_not_reported": alarms}
+
+
 def check_c06(tier, t0):
     progs = pick(all_progs(["functions", "pressure"]) + names_family()[:3], tier, 16)
     vecs = [cw.REF, cw.opts(use_push_pop_functions=True), cw.opts(tail_call_optimization=True),
@@ -526,14 +548,16 @@ def check_c06(tier, t0):
             "arguments) x calling conventions {fixed slots, push/pop} x tail calls on/off, labels kept; monitor of "
             "IC10Core: every taken jal pushes <<return line, sp>>, every 'j ra' of a function must go to the top entry "
             "with sp = recorded sp (+1 returned value in push/pop); plus effect equality against the reference convention")
-    return run_equiv_check("C06", tier, t0, items, "model_checking", rule,
-                           ASSUME_IC10 + ["function entry labels, arities and has-return-value come from hook H1 (function table)"],
-                           extra_cov={"annotated_call_sites": ncalls},
+    ap = all_paths("C06", items)
+    return run_equiv_check("C06", tier, t0, items, "model_checking", rule + "; plus IC10Abs.tla: the same monitor on ALL paths of every candidate program (data values forgotten, every branch both ways)",
+                           ASSUME_IC10 + ["function entry labels, arities and has-return-value come from hook H1 (function table)",
+                                          "IC10Abs.tla over-approximates IC10Core.tla (argued in its header); writes to the chip's memory with a run-time address do not hit a saved return address"],
+                           extra_cov=dict(ap, annotated_call_sites=ncalls),
                            violation_filter=lambda v: not v.endswith("FALLTHROUGH"))
 
 
 def check_c07(tier, t0):
-    progs = [(n, s, "term") for n, s in corpus.family("term")]
+    progs = [(n, s, "term") for n, s in corpus.family("term")] + pick(all_progs(["functions"]), tier, 8)
     vecs = [cw.REF, cw.opts(use_push_pop_functions=True), cw.opts(tail_call_optimization=True)]
     mat = compile_matrix(progs, vecs)
     items = []
@@ -546,16 +570,17 @@ def check_c07(tier, t0):
                 continue
             pb, fi = annotated(mat[(n, tag)], code, v["use_push_pop_functions"])
             nent += sum(1 for i in pb if i.get("ent"))
-            items.append({"name": n, "tag": tag, "case": equiv.make_case(pb, pb), "src": s, "a_text": code, "b_text": code,
+            items.append({"name": n, "tag": tag, "case": equiv.make_case(pb, pb, maxn=8), "src": s, "a_text": code, "b_text": code,
                           "sample": sample_of(n, tag, s, code)})
     if nent == 0:
         raise MachineryError("vacuous: no out-of-line function entry in the terminating family")
     rule = ("programs whose top-level code terminates (straight line, break out of a loop) and that call at least one "
             "out-of-line function; monitor: a function entry label must never be reached by falling through from the "
             "previous line; all inputs in the domain")
-    return run_equiv_check("C07", tier, t0, items, "model_checking", rule,
-                           ASSUME_IC10 + ["function entry labels come from hook H1"],
-                           extra_cov={"annotated_function_entries": nent}, expect_mutant=True,
+    ap = all_paths("C07", items)
+    return run_equiv_check("C07", tier, t0, items, "model_checking", rule + "; plus IC10Abs.tla: the fall-through monitor on ALL paths of every program",
+                           ASSUME_IC10 + ["function entry labels come from hook H1", "IC10Abs.tla over-approximates IC10Core.tla (argued in its header)"],
+                           extra_cov=dict(ap, annotated_function_entries=nent), expect_mutant=True,
                            violation_filter=lambda v: v.endswith("FALLTHROUGH") or v.startswith(("EFFECT", "EXTRA", "MISSING")))
 
 
